@@ -453,6 +453,11 @@ func ringPointerRace() string {
 	if e != "" {
 		return e
 	}
+	// a bystander subscribed to the same topic after the victim: it comes later in the fan-out
+	bystander, e := fr.connect("W2", "racebystander", "r")
+	if e != "" {
+		return e
+	}
 	arrived := make(chan struct{}, 1)
 	release := make(chan struct{})
 	var armed int32 = 1
@@ -475,6 +480,15 @@ func ringPointerRace() string {
 		return "the victim's teardown did not finish while a delivery to it was in progress"
 	}
 	close(release)
+	// the failed delivery to the victim affects nobody else: the bystander gets the message
+	select {
+	case p := <-bystander.rx:
+		if p.first>>4 != 3 || !bytes.HasSuffix(p.body, []byte("race")) {
+			return fmt.Sprintf("the bystander subscriber received %x instead of the published message", p.first)
+		}
+	case <-time.After(3 * time.Second):
+		return "a subscriber that comes after a dying one in the fan-out missed the message (the delivery error of one connection stopped the fan-out)"
+	}
 	// the innocent publisher must still be served
 	for len(innocent.rx) > 0 {
 		<-innocent.rx
